@@ -50,7 +50,12 @@ NASTY = [S('int', 'abc'), S('int', '0x_'), S('int', '0b_'), S('int', '1_'), S('t
          S('float', 'x'), S('float', '1.2.3'), S('null', 'x'), S('value', '='), S('merge', '<<'),
          S('tag:yaml.org,2002:python/name:os.system', 'x'), S('!Unknown', 'x'), Q([], 'set'), M([], 'omap'),
          Q([S('str', 'a')], 'omap'), Q([S('str', 'a')], 'pairs'), M([(S('str', 'a'), S('int', '1'))], 'set'),
-         S('seq', 'x'), S('map', 'x'), Q([], 'str'), M([], 'int')]
+         S('seq', 'x'), S('map', 'x'), Q([], 'str'), M([], 'int'),
+         # long spellings: base-60 numbers overflow a float, Python refuses int<->str beyond 4300 digits
+         S('float', ':'.join(['1'] * 200)), S('float', '1' + ':59' * 180 + '.5'), S('int', ':'.join(['1'] * 200)),
+         S('int', '0x' + 'f' * 4400), S('int', '-0b' + '1' * 15000), S('int', '7' * 4400), S('float', '9' * 4400 + '.0'),
+         S('float', '1e' + '9' * 4400)]
+NASTY_LONG_FROM = 25
 
 
 def nasty_mutations(tree):
@@ -109,7 +114,7 @@ def hook_models():
         out.append(('recognize-reads-value', {'classes': catalog.BASE + [{'name': 'K', 'params': [('kind', 'any', None), ('x', 'int', 0)],
                                                                           'hooks': {'recognize': [('require_attr', 'kind', t)]}}],
                                               'root': ('cls', 'K')}))
-    for op in (('attr_get_value', 'kind'), ('attr_has_type', 'kind', 'int'), ('remove_defaults',)):
+    for op in (('attr_get_value', 'kind'), ('attr_has_type', 'kind', 'int'), ('remove_defaults',), ('value_roundtrip', 'kind')):
         for rec in (None, [('permissive',)]):
             hooks = {'savorize': [('only_mapping',), op]}
             if rec:
@@ -124,6 +129,24 @@ def hook_models():
                                                                 'hooks': {'savorize': [('only_mapping',), op], 'recognize': [('permissive',)]},
                                                                 'extra': True}],
                                                    'root': ('cls', 'K')}))
+    # the helpers that document no "use only if is_mapping()" precondition, called on whatever the permissive recogniser
+    # of docs/advanced_features.rst ("the following will also work") lets through: scalars and sequences too
+    for op in (('attr_has_type', 'kind', 'str'), ('attr_has_type', 'kind', 'list'), ('map_to_seq', 'kind', 'id', 'v'),
+               ('seq_to_map', 'kind', 'id', 'v'), ('index_to_map', 'kind', 'id', 'v'), ('map_to_index', 'kind', 'id', 'v'),
+               ('dashes_to_unders',), ('unders_to_dashes',)):
+        for root in (('cls', 'K'), ('list', ('cls', 'K'))):
+            out.append(('savorize-helper-any-node', {'classes': [{'name': 'K', 'params': [('kind', 'any', None), ('x', 'any', None)],
+                                                                  'hooks': {'savorize': [op], 'recognize': [('permissive',)]}}],
+                                                     'root': root}))
+    # parsed-class style (docs/recipes.rst): the node is a scalar, the hook reads it with get_value() after is_scalar()
+    for root in (('cls', 'K'), ('dict', 'str', ('cls', 'K'))):
+        out.append(('savorize-scalar-value', {'classes': [{'name': 'K', 'params': [('v', 'any')],
+                                                           'hooks': {'recognize': [('require_scalar', [])],
+                                                                     'savorize': [('scalar_get_value',), ('scalar_to_attr', 'v')]},
+                                                           'docs': [S('str', 'a'), S('int', '7'), S('float', '1.5'), S('bool', 'true'),
+                                                                    S('null', '~'), S('timestamp', '2001-02-03'), S('value', '='),
+                                                                    S('merge', '<<'), S('binary', 'aGk=')]}],
+                                              'root': root}))
     # savorize helpers that fail on the node they get
     for op in (('get_attr', 'missing'), ('map_to_seq', 'a', 'id', 'v'), ('seq_to_map', 'a', 'id', 'v'),
                ('seq_to_map', 'a', 'id', None), ('index_to_map', 'a', 'id', 'v'), ('map_to_index', 'a', 'id', 'v'),
@@ -153,6 +176,8 @@ def units(tier):
         out.append(('soup', mi, '', 1, INDICATORS))
         for a in INDICATORS:
             out.append(('soup', mi, a, b['indicator_maxlen'], INDICATORS))
+    for mi in range(len(SOUP_MODELS)):
+        out.append(('lexical', mi))
     for i in range(len(cat(tier))):
         out.append(('docs', i))
     for i in range(len(hook_models())):
@@ -169,19 +194,23 @@ def soup_case(mi):
     return _CASES[mi]
 
 
+def short(text):
+    return repr(text) if len(text) <= 160 else '%r...(%d characters)' % (text[:120], len(text))
+
+
 def observe(case, text, res, kind, spec):
     o = case.impl(text)
     res.traces += 1
     if o[0] == 'exc':
         e = o[1]
         res.violation('C08:%s:%s' % (loadcase.exc_key(e), ':'.join(kind.split(':')[:2])),
-                      '%s escapes load(%r) [root %s]: %s' % (type(e).__name__, text, spec['root'], str(e)[:120]),
+                      '%s escapes load(%s) [root %s]: %s' % (type(e).__name__, short(text), spec['root'], str(e)[:120]),
                       loadcase.payload(spec, text, dockind=kind))
         res.hist['escaped:' + type(e).__name__] += 1
     else:
         res.hist[o[0] if o[0] != 'yamlerr' else 'yamlerr:' + o[1]] += 1
         if o[0] != 'ok' and kind != 'soup':
-            res.sample({'root': str(spec['root']), 'kind': kind, 'text': text, 'outcome': o[0] if o[0] != 'yamlerr' else o[1]}, 2)
+            res.sample({'root': str(spec['root']), 'kind': kind, 'text': short(text), 'outcome': o[0] if o[0] != 'yamlerr' else o[1]}, 2)
     return o[0]
 
 
@@ -219,8 +248,46 @@ def cyclic_texts(case, tree):
     return out
 
 
+HEXD = '01789aDfF'
+
+
+def lexical_texts(tier):
+    """spellings below the level of nodes (escapes in double-quoted scalars, directives), which no rendered
+    document contains: every \\x.. over HEXD^2, every \\u.... with two free digits, every \\U........ with three free
+    leading digits, each as a whole document, as a mapping value and as a key; %YAML / %TAG directives with
+    every combination of odd version parts"""
+    esc = ['\\x' + a + b for a in HEXD for b in HEXD]
+    esc += ['\\u' + a + b + t for a in HEXD for b in HEXD for t in ('00', 'fF')]
+    esc += ['\\U' + a + b + c + t for a in '01fF' for b in '01fF' for c in HEXD for t in ('00000', 'FFFFF', '0fffe')]
+    esc += ['\\U0011' + t for t in ('0000', 'ffff')] + ['\\' + c for c in '0abtnvfre "/\\N_LPxuUzq\n']
+    for e in esc:
+        yield '"%s"' % e
+        yield 'a: "x%s"' % e
+        yield '"%s": 1' % e
+        yield '- ["%s"]' % e
+    parts = ['1', '2', '0', '', 'a', '-1', '1' * 4400, '0' * 4400 + '1']
+    for a in parts:
+        for b in parts:
+            for sep in ('.', ''):
+                yield '%%YAML %s%s%s\n---\na' % (a, sep, b)
+                yield '%%YAML %s%s%s\n--- {a: 1}' % (a, sep, b)
+    for h in ('!', '!!', '!e!', '', 'e', '!e'):
+        for pfx in ('!', 'tag:x,2000:', '', '%', '%zz', '%41', '!' + '%41' * 3, '<>', '%ff', '%c3%28'):
+            yield '%%TAG %s %s\n--- %sa 1' % (h, pfx, h if h.endswith('!') else '!')
+    yield '%YAML 1.1\n%YAML 1.1\n---\na'
+    yield '%FOO ' + 'x' * 10 + '\n---\na'
+
+
 def run_unit(unit, tier):
     res = core.Result()
+    if unit[0] == 'lexical':
+        case = soup_case(unit[1])
+        for s in lexical_texts(tier):
+            res.states += 1
+            res.transitions += 1
+            if observe(case, s, res, 'lexical', SOUP_MODELS[unit[1]]) != 'ok':
+                res.nontrivial += 1
+        return res
     if unit[0] == 'soup':
         _, mi, prefix, L, alpha = unit
         case = soup_case(mi)
@@ -258,7 +325,7 @@ def run_unit(unit, tier):
                     continue
                 if kind.startswith('nasty'):
                     nz = NASTY[int(kind[5:])]
-                    kind = 'nasty:%s:%s' % (nz[1].split(':')[-1], nz[2] if nz[0] == 's' else nz[0])
+                    kind = 'nasty:%s:%s' % (nz[1].split(':')[-1], nz[2][:16] if nz[0] == 's' else nz[0])
                 if observe(case, text, res, kind, spec) != 'ok':
                     res.nontrivial += 1
             for text in cyclic_texts(case, t):
